@@ -171,7 +171,20 @@ def main(tier, replay=None):
                 O.int1(f, x)
             for dv in (1, 2, 3, -3, 7, Fraction(1, 2), Fraction(-1, 4), Fraction(5, 2), 0, 10, -10, Fraction(1, 10), Fraction(3, 10), Fraction(-1, 100)):
                 O.qm(x, dv)
-    for n in list(range(-3, 23)) + [25, 30, 40]:
+    # large numbers with a small remainder, rounded to whole numbers (the remainder is far above the binary noise there)
+    bigs = [Fraction(k, 1000) for k in (1234567001, 1234567999, 1999999001, 1000000001, 999999999, 1500000500, 1234567500,
+                                        -1234567001, -1999999999, 2000000000)] + \
+           [Fraction(k, 100) for k in (999999999, 1234567801, -1234567899, 250000001)] + \
+           [Fraction(k, 10) for k in (1999999999, -1999999991, 99999995)] + [Fraction(1999999999), Fraction(-2000000000)]
+    bigs += [Fraction(rng.randint(10 ** 9, 2 * 10 ** 9) * rng.choice([1, -1]), rng.choice([1000, 1000, 100, 8])) for _ in range(40 if quick else 3000)]
+    for x in bigs:
+        for f in ('ROUND', 'ROUNDUP', 'ROUNDDOWN'):
+            O.round(f, x, 0)
+        O.adj('CEILING', x, 1)
+        O.adj('FLOOR', x, 1)
+        O.int1('INT', x)
+        O.qm(x, 1)
+    for n in list(range(-3, 23)) + [25, 30, 31, 33, 35, 37, 40, 41, 45, 51, 60, 99, 100, 101]:
         O.fact(n)
     edge = [0, 1, -1, 15, 16, 255, 256, 2 ** 31 - 1, 2 ** 31, 2 ** 32, 2 ** 39 - 1, 2 ** 39, 2 ** 39 + 1, -2 ** 39, -2 ** 39 - 1,
             -2 ** 39 + 1, 2 ** 40 - 1, 2 ** 40, -2 ** 40, 10 ** 12, -10 ** 12]
